@@ -252,7 +252,27 @@ def analyse(rxs, config):
         if r != "unsat":
             out.update(status="inconclusive", detail="rhs %s: %s" % (key, r))
             return out
-    # per-reaction symbolic rates offered by rate_exprs_cb are not exposed symbolically; bound-vs-free parameters:
+    # numeric callbacks at one rational point (concrete validation of what pyodesys lambdified; not solver evidence):
+    # per-reaction rates from extra['rate_exprs_cb'] and the right-hand side from odesys.f_cb must equal the oracle's numbers
+    if extra is not None and "rate_exprs_cb" in extra and config not in ("ramped_temp",):
+        try:
+            yv = [0.5 + 0.25 * i for i in range(len(keys))]
+            pv = [1.5 + 0.5 * i for i in range(len(odesys.params))]
+            sub = dict(zip(odesys.dep, yv))
+            sub.update(zip(odesys.params, pv))
+            sub[odesys.indep] = 0.25
+            exp_rates = [float(sp.N(sp.sympify(r_).subs(sub), 20)) for r_ in rates]
+            got_rates = [float(x) for x in extra["rate_exprs_cb"](0.25, yv, pv)]
+            exp_f = [float(sp.N(sp.sympify(rhs[k]).subs(sub), 20)) for k in keys]
+            got_f = [float(x) for x in odesys.f_cb(0.25, yv, pv)]
+            for a_, b_ in list(zip(got_rates, exp_rates)) + list(zip(got_f, exp_f)):
+                if abs(a_ - b_) > 1e-9 * max(1.0, abs(b_)):
+                    out.update(status="violation", kind="callbacks", detail="rate_exprs_cb/f_cb %s %s differ from the oracle %s %s" % (got_rates, got_f, exp_rates, exp_f))
+                    return out
+        except Exception as e:
+            out.update(status="violation", kind="callbacks", detail="numeric callbacks raised %r" % (e,))
+            return out
+    # bound-vs-free parameters:
     if binder is not None:
         rs2, od2, ex2, _, kf2, _, _, _ = build_case(rxs, "arrhenius")
         sub = {P[k]: v for k, v in binder.items()}
@@ -311,6 +331,20 @@ def replay(rxs, config):
         b = sp.N(sp.sympify(rhs[key]).subs(pt), 30)
         if abs(a - b) > 1e-12 * max(1, abs(b)):
             bad.append("d[%s]/dt: generated %s, N^T r gives %s" % (key, a, b))
+    if extra is not None and "rate_exprs_cb" in extra and config != "ramped_temp":
+        yv = [0.5 + 0.25 * i for i in range(len(keys))]
+        pv = [1.5 + 0.5 * i for i in range(len(odesys.params))]
+        sub = dict(zip(odesys.dep, yv)); sub.update(zip(odesys.params, pv)); sub[odesys.indep] = 0.25
+        try:
+            exp_rates = [float(sp.N(sp.sympify(r_).subs(sub), 20)) for r_ in rates]
+            got_rates = [float(x) for x in extra["rate_exprs_cb"](0.25, yv, pv)]
+            exp_f = [float(sp.N(sp.sympify(rhs[k]).subs(sub), 20)) for k in keys]
+            got_f = [float(x) for x in odesys.f_cb(0.25, yv, pv)]
+            for a_, b_ in list(zip(got_rates, exp_rates)) + list(zip(got_f, exp_f)):
+                if abs(a_ - b_) > 1e-9 * max(1.0, abs(b_)):
+                    bad.append("numeric callbacks: %s %s vs oracle %s %s" % (got_rates, got_f, exp_rates, exp_f)); break
+        except Exception as e:
+            bad.append("numeric callbacks raised %r" % (e,))
     for b in bad:
         print("MISMATCH", b)
     return 1 if bad else 0
